@@ -209,6 +209,7 @@ def Inv (r : Player) : Prop :=
   (r.current = 0 ∧ r.next = 0 ∧ RSim r.exec (chain prog 0).exec) ∨
   (∃ k, 1 ≤ k ∧ liveUpTo prog (k + 1) ∧ Sim r.exec (chain prog k).exec ∧ r.next = (chain prog k).next ∧
       (chain prog k).current ≤ r.current ∧ r.current ≤ (chain prog k).next ∧
+      (r.current < (chain prog k).next ∨ r.current = (chain prog k).current) ∧
       r.exec.color = (stepFade (chain prog k).exec r.current).color) ∨
   (∃ m, 1 ≤ m ∧ liveUpTo prog m ∧ (chain prog m).exec.ended = true ∧ DeadEq r.exec (chain prog m).exec ∧
       (chain prog m).current ≤ r.current)
@@ -287,7 +288,7 @@ theorem final_inv (t : Nat) (q : Player) (h : LInv prog t q) (hq : t ≤ q.next)
     · right; right
       exact ⟨1, by omega, fun i h1 h2 => by omega, he, hd, by rw [hcur]; exact Nat.zero_le _⟩
     · right; left
-      refine ⟨1, by omega, hl2, hs, ?_, by rw [hcur]; exact Nat.zero_le _, Nat.zero_le _, ?_⟩
+      refine ⟨1, by omega, hl2, hs, ?_, by rw [hcur]; exact Nat.zero_le _, Nat.zero_le _, Or.inr hcur.symm, ?_⟩
       · show (step q.exec 0).nextWakeup = _
         rw [G.next_eq, hs.nextWakeup]
       · show (step q.exec 0).color = (stepFade (chain prog 1).exec 0).color
@@ -309,7 +310,7 @@ theorem final_inv (t : Nat) (q : Player) (h : LInv prog t q) (hq : t ≤ q.next)
       · right; right
         exact ⟨k + 1, by omega, hl, he, hd, by rw [hcur]; exact Nat.le_refl _⟩
       · right; left
-        refine ⟨k + 1, by omega, hl2, hs', ?_, by rw [hcur]; exact Nat.le_refl _, ?_, ?_⟩
+        refine ⟨k + 1, by omega, hl2, hs', ?_, by rw [hcur]; exact Nat.le_refl _, ?_, Or.inr hcur.symm, ?_⟩
         · show (step q.exec t).nextWakeup = _
           rw [G.next_eq, hs'.nextWakeup]
         · show t ≤ (chain prog (k + 1)).next
@@ -333,7 +334,8 @@ theorem final_inv (t : Nat) (q : Player) (h : LInv prog t q) (hq : t ≤ q.next)
         exact short k hl (hs.trActive.symm.trans ha)
       obtain ⟨e1, e2⟩ := interior_step gq hqne hc hlt hsh
       right; left
-      refine ⟨k, hk, hl, ?_, ?_, hc, (by show t ≤ (chain prog k).next; rw [← hqw]; omega), ?_⟩
+      refine ⟨k, hk, hl, ?_, ?_, hc, (by show t ≤ (chain prog k).next; rw [← hqw]; omega),
+        Or.inl (by show t < (chain prog k).next; rw [← hqw]; exact hlt), ?_⟩
       · show Sim (step q.exec t) _
         rw [e1]; exact e2.trans hs
       · show (step q.exec t).nextWakeup = _
@@ -361,7 +363,7 @@ theorem inv_start (p : Player) (h : Inv prog p) (t : Nat) :
     · rw [hprog.1, he]; simp [rewindExec]
     · rw [hprog.2, he]; simp [rewindExec]
   · rename_i hge
-    rcases h with ⟨_, hn, hr⟩ | ⟨k, hk, hl, hs, hn, hc, _, _⟩ | ⟨m, hm, hl, he, hd, hc⟩
+    rcases h with ⟨_, hn, hr⟩ | ⟨k, hk, hl, hs, hn, hc, _, _, _⟩ | ⟨m, hm, hl, he, hd, hc⟩
     · left; exact ⟨hn, hr⟩
     · right; left; exact ⟨k, hk, hl, hs, hn, by omega⟩
     · right; right; exact ⟨m, hm, hl, he, hd, by omega⟩
@@ -415,11 +417,11 @@ theorem live_strict {prog : Bytes} {t k : Nat} (hni : NotInstant prog t) (hk : 1
 theorem inv_unique (r r' : Player) (t : Nat) (h : Inv prog r) (h' : Inv prog r') (ht : r.current = t) (ht' : r'.current = t)
     (hni : NotInstant prog t) : obs3 r.exec = obs3 r'.exec := by
   have h0 : t ≠ 0 := fun h0 => hni 0 (fun i h1 h2 => by omega) (by rw [chain0_next, h0])
-  rcases h with ⟨hc, _, _⟩ | ⟨k, hk, hl, hs, hn, hc1, hc2, hcol⟩ | ⟨m, hm, hl, he, hd, hc⟩
+  rcases h with ⟨hc, _, _⟩ | ⟨k, hk, hl, hs, hn, hc1, hc2, hc3, hcol⟩ | ⟨m, hm, hl, he, hd, hc⟩
   · omega
   · rw [ht] at hc1 hc2 hcol
     obtain ⟨b1, b2⟩ := live_strict hni hk hl hc1 hc2
-    rcases h' with ⟨hc', _, _⟩ | ⟨k', hk', hl', hs', hn', hc1', hc2', hcol'⟩ | ⟨m', hm', hl', he', hd', hc'⟩
+    rcases h' with ⟨hc', _, _⟩ | ⟨k', hk', hl', hs', hn', hc1', hc2', hc3', hcol'⟩ | ⟨m', hm', hl', he', hd', hc'⟩
     · omega
     · rw [ht'] at hc1' hc2' hcol'
       obtain ⟨b1', b2'⟩ := live_strict hni hk' hl' hc1' hc2'
@@ -440,7 +442,7 @@ theorem inv_unique (r r' : Player) (t : Nat) (h : Inv prog r) (h' : Inv prog r')
       have := chain_next_le_current prog k m' hkm hl'
       omega
   · rw [ht] at hc
-    rcases h' with ⟨hc', _, _⟩ | ⟨k', hk', hl', hs', hn', hc1', hc2', hcol'⟩ | ⟨m', hm', hl', he', hd', hc'⟩
+    rcases h' with ⟨hc', _, _⟩ | ⟨k', hk', hl', hs', hn', hc1', hc2', hc3', hcol'⟩ | ⟨m', hm', hl', he', hd', hc'⟩
     · omega
     · rw [ht'] at hc1' hc2'
       obtain ⟨b1', b2'⟩ := live_strict hni hk' hl' hc1' hc2'
